@@ -64,6 +64,8 @@ func runC07(c *Ctx) {
 		}
 	}
 	c.check(len(missing) == 0, "CMAP-REGISTRY", "postscript.cidInit", "the 17 CIDInit operators are defined", token.NoPos, fmt.Sprintf("%d operators", n), "CIDInit lacks "+strings.Join(missing, ", "))
+	c.check(reg.open["cidInit"] == 0, "CMAP-REGISTRY", "postscript.cidInit", "the contents of the table are determined where it is built", token.NoPos, "every update has a constant key (or runs over a list of constant keys) and is made unconditionally",
+		fmt.Sprintf("%d update(s) of the CIDInit table have a key that is not known statically or are made conditionally: which operators a CMap file finds cannot be decided", reg.open["cidInit"]))
 
 	c.cmapTables()
 	c.cmapChoiceRule()
